@@ -31,7 +31,9 @@ CFG_BIG = {"values": (3,), "templates": ("bigdiv", "mul2"), "unreg": False, "cal
 CFG_GEN = {"values": (3,), "templates": ("mul2",), "unreg": True, "leaves_n": 3}
 # definitions that differ only in literals whose hashes coincide (-1 / -2): whatever is cached per expression must not be keyed by hash
 CFG_HASHLIT = {"values": (3,), "templates": ("mulm1", "mulm2"), "unreg": True, "leaves_n": 3}
-ALPHABETS = {"nest": CFG_NEST, "mix": CFG_MIX, "mixq": CFG_MIX_Q, "reduced": CFG_REDUCED, "gen": CFG_GEN, "assoc": CFG_ASSOC, "big": CFG_BIG, "hashlit": CFG_HASHLIT}
+# argument values that are EQUAL to what the location holds but not the same (3.0 over 3, True over 1): both routes store them
+CFG_EQVAL = {"values": (3,), "templates": ("mul2",), "unreg": False, "call_values": (3, 3.0, 1, True), "leaves_n": 3}
+ALPHABETS = {"eqval": CFG_EQVAL, "nest": CFG_NEST, "mix": CFG_MIX, "mixq": CFG_MIX_Q, "reduced": CFG_REDUCED, "gen": CFG_GEN, "assoc": CFG_ASSOC, "big": CFG_BIG, "hashlit": CFG_HASHLIT}
 
 
 def alphabet_for(world, name):
@@ -195,10 +197,10 @@ def plan(tier, seed):
     jobs = []
     if tier == "quick":
         runs = [("W-nest", "reduced", 2), ("W-nest-4", "reduced", 3), ("W-mix", "mixq", 2), ("W-flat", "gen", 4), ("W-flat", "assoc", 2), ("W-flat", "big", 2),
-                ("W-flat", "hashlit", 3)]
+                ("W-flat", "hashlit", 3), ("W-flat", "eqval", 2)]
     else:
         runs = [("W-nest", "nest", 2), ("W-nest", "reduced", 2), ("W-nest-4", "reduced", 4), ("W-mix", "mix", 2), ("W-mix", "mixq", 2), ("W-flat", "gen", 6),
-                ("W-nest-4", "gen", 5), ("W-flat", "assoc", 3), ("W-nest-4", "assoc", 2), ("W-flat", "big", 3), ("W-flat", "hashlit", 4), ("W-nest-4", "hashlit", 3)]
+                ("W-nest-4", "gen", 5), ("W-flat", "assoc", 3), ("W-nest-4", "assoc", 2), ("W-flat", "big", 3), ("W-flat", "hashlit", 4), ("W-nest-4", "hashlit", 3), ("W-flat", "eqval", 3)]
     for hs in seeds:
         for wname, alpha, depth in runs:
             jobs.append({"name": f"bfs:{wname}:{alpha}:d{depth}:seed{hs}", "mode": "compiled", "hashseed": hs,
